@@ -136,6 +136,16 @@ def check_edge_jacobians(ctx, e, where, fd=True, case=None, rng=None):
         if ok_err:
             Jexp = Jr * sig[:, None]
             tol = 1e-11 * s * (1.0 + np.abs(Jr).max())
+            rr = M.rot_rows(e)
+            if rr and float(np.abs(real_err[rr]).max()) < 1e-9 and float(np.abs(ref_err[rr]).max()) < 1e-9:
+                # the rotational error vanishes, so its value cannot tell which of the two legitimate sign conventions
+                # (raw Hamilton error quaternion / representative with w >= 0) applies here: accept the Jacobian under either
+                alt = sig.copy()
+                alt[rr] = -alt[rr]
+                with np.errstate(all="ignore"):
+                    if not np.all(np.abs(J - Jexp) <= tol) and np.all(np.abs(J - Jr * alt[:, None]) <= tol):
+                        Jexp = Jr * alt[:, None]
+                        ctx.count("sign_convention_undetermined_by_zero_rotational_error")
             all_ok &= ctx.close("jac-vs-AD", J, Jexp, tol, f, {"scale": s}, case)
         else:
             ctx.count("refmodel_error_disagrees(decided by finite differences)")
